@@ -35,7 +35,7 @@ import c07_gates as G
 from c07_gates import kids, strip, qual, callee_name, int_value, declrefs, and_chain, or_chain, mode_test, member_path
 
 FILES = G.FILES
-VERSION = "7"
+VERSION = "8"
 ARM_DUP_LIMIT = 12          # arms up to this many statements are duplicated for `A || B` conditions
 
 
@@ -654,11 +654,77 @@ class SWalker(G.Walker):
         return "State"
 
     # ---- statements
+    def untested_tail_call(self, s):
+        """the variable v when the last statement of the arm s is `v = linkable_call(..)` (its result is not tested inside
+        the arm), else None"""
+        while s is not None and s.get("kind") == "CompoundStmt":
+            ks = kids(s)
+            s = ks[-1] if ks else None
+        if s is None:
+            return None
+        s0 = strip(s)
+        if s0.get("kind") == "BinaryOperator" and s0.get("opcode") == "=":
+            a, b = kids(s0)
+            la, rb = strip(a), strip(b)
+            if la.get("kind") == "DeclRefExpr" and rb.get("kind") == "CallExpr" and self.linkable(rb) and \
+                    (qual(rb).strip() == "int" or qual(rb).strip().endswith("*")):
+                return la["referencedDecl"]["name"]
+        return None
+
+    def tail_duplicated(self, s, nxt):
+        """`if (c) { ..; v = call(..); }  if (v == 0 || ..) { ..; return ..; }`  -- the result of a call made in one arm is
+        tested by the statement that FOLLOWS the `if` (the file-selection step `if (posit != 0) cg = cgi_get_file(posit_file);`
+        followed by the NULL / CLOSED test of CHECK_FILE_OPEN).  The following test has no side effect and its arm returns, so
+        the code is equivalent to the same code with a copy of that test appended to the arm: the copy links the test to the call
+        (a failing call => the failing arm), the original still covers the paths on which the call was not made.
+        -> the rewritten IfStmt, or None when the pattern is not there"""
+        if s.get("kind") != "IfStmt" or nxt is None or nxt.get("kind") != "IfStmt":
+            return None
+        ks, nk = kids(s), kids(nxt)
+        if len(ks) < 2 or len(nk) < 2 or (nxt.get("hasElse") and len(nk) > 2):
+            return None
+        arms = [(1, ks[1])] + ([(2, ks[2])] if s.get("hasElse") and len(ks) > 2 else [])
+        hit = [(j, a, self.untested_tail_call(a)) for j, a in arms]
+        if not any(v for _, _, v in hit):
+            return None
+        cnd, body = nk[0], nk[1]
+        if G.has_call(cnd):
+            return None
+        last = body
+        while last is not None and last.get("kind") == "CompoundStmt":
+            last = kids(last)[-1] if kids(last) else None
+        if last is None or last.get("kind") != "ReturnStmt":
+            return None
+
+        def fail_test_of(v):
+            for x in or_chain(strip(cnd)):
+                x = strip(x)
+                if x.get("kind") == "BinaryOperator" and x.get("opcode") == "==" and self.lit(kids(x)[1]) == 0 and \
+                        strip(kids(x)[0]).get("kind") == "DeclRefExpr" and strip(kids(x)[0])["referencedDecl"]["name"] == v:
+                    return True
+                if x.get("kind") == "UnaryOperator" and x.get("opcode") == "!" and strip(kids(x)[0]).get("kind") == "DeclRefExpr" and \
+                        strip(kids(x)[0])["referencedDecl"]["name"] == v:
+                    return True
+            return False
+        inner = list(s.get("inner", []))
+        pos = [k for k, c in enumerate(inner) if c]          # positions of the real children (kids() drops empty slots)
+        changed = False
+        for j, a, v in hit:
+            if v and fail_test_of(v):
+                inner[pos[j]] = {"kind": "CompoundStmt", "inner": [a, nxt], "range": a.get("range", {}), "loc": a.get("loc", {})}
+                changed = True
+        if not changed:
+            return None
+        s2 = dict(s)
+        s2["inner"] = inner
+        return s2
+
     def block(self, stmts, ctrl):
         """translate a statement sequence; a statement that may `break`/`continue` makes the rest optional"""
         i = 0
         while i < len(stmts):
             s = stmts[i]
+            s = self.tail_duplicated(s, stmts[i + 1] if i + 1 < len(stmts) else None) or s
             self.stmt(s, ctrl)
             if has_exit(s, self.brk[-1] if self.brk else None) and i + 1 < len(stmts):
                 rest = stmts[i + 1:]
